@@ -16,7 +16,7 @@ def apply_contract(it, c, fi, args, kwargs) -> V:
     old_env = Env(None, clauses.spec_env(it))
     for k, v in env.vars.items():
         old_env.vars[k] = snapshot(v)
-    env.set("__old_env__", OldEnv(old_env))
+    env.set("__old_env__", OldEnv(old_env, (it.fs_bin, it.fs_txt, it.fs_exists)))
     # 1. preconditions are obligations of the caller
     for cl in c.requires_:
         goal = clauses.eval_clause(it, cl, env)
@@ -25,9 +25,12 @@ def apply_contract(it, c, fi, args, kwargs) -> V:
     # 2. exceptional outcomes
     for rs in c.raises_:
         cls = clauses.resolve_exception(it, rs.exc)
-        if rs.when is not None:
+        if rs.when is not None and rs.must:
             cond = clauses.eval_clause(it, rs.when, env)
             fire = it.branch(cond)
+        elif rs.when is not None:
+            cond = clauses.eval_clause(it, rs.when, env)
+            fire = it.branch(z3.And(cond, z3.Bool(it.fresh_name(f"{c.func}_raises_{rs.label}"))))
         else:
             fire = it.branch(z3.Bool(it.fresh_name(f"{c.func}_raises_{rs.label}")))
         if fire:
